@@ -183,6 +183,22 @@ CLAIMED["C03"] = dict(
     technique="CBMC standard checks + memory-leak check on the contract harnesses (invariants give all histories)",
 )
 
+CLAIMED["C20"] = dict(
+    level="proof",
+    text="PARTIAL (counting clause).  On real vnacal_new_t objects built through the real API (vnacal_create, "
+         "vnacal_new_alloc, set_frequency_vector, add_single_reflect_m) for T8, U8, TE10, UE10, UE14, E12 "
+         "(2x2; more shapes in thorough) with symbolic measured values: the per-system equation counts, their sum "
+         "and maximum and the standard count equal the list lengths after every accepted standard; a refused "
+         "standard (invalid, dead or negative handle) adds nothing; with fewer equations than unknown error terms "
+         "vnacal_new_solve fails with exactly one MATH/EDOM report, installs no calibration, leaves the accumulated "
+         "standards untouched (so adding the missing ones and solving again is admissible) and leaks nothing - "
+         "with and without the measurement-error model.",
+    note="histories from a fresh object on concrete small shapes, not an arbitrary well-formed object; 'every "
+         "determining set solves and corrects exactly' (numerical rank/accuracy), solve_auto/TRL: NOT covered",
+    design="DESIGN.md 3 C20, 8.16",
+    technique="CBMC contract harnesses on real add/solve histories (count invariant, EDOM, unchanged object, no leak)",
+)
+
 NA = {
     "C02": "iterative floating-point convergence (Levenberg-Marquardt / TRL) has no contract CBMC can discharge; see DESIGN.md 3 C02",
     "C06": "property is about bytes written by fprintf and read by an independent reader; no CBMC model of formatted I/O (a stub would be the oracle); DESIGN.md 3 C06",
@@ -194,7 +210,6 @@ NA = {
 NOT_YET = {
     "C18": "not built: the decidable clauses (weights indexing, NULL-vectors reset, T16 full-S refusal) need a well-formed vnacal_new_t measurement/equation graph constructor that was not written; statistical clauses are outside contract verification (DESIGN 8.12)",
     "C19": "backward stability is a floating-point statement outside contract verification; the planned structural claims on _vnacommon_lu (row scaling, pivot rule, zero pivot) were not built (DESIGN 8.12)",
-    "C20": "the counting clause needs the vnacal_new_t equation-list constructor and the solver skeletons under contract; not built; numerical rank/accuracy clauses are outside contract verification (DESIGN 8.12)",
 }
 for k in CLAIMED:
     NOT_YET.pop(k, None)
